@@ -492,6 +492,10 @@ class ExecBase:
             return Val("any", z3.If(both_i, ctor("i")(acc("i")(ae) + acc("i")(be)),
                                     z3.If(both_s, ctor("s")(z3.Concat(acc("s")(ae), acc("s")(be))),
                                           ctor("l")(z3.Concat(acc("l")(ae), acc("l")(be))))))
+        if isinstance(op, ast.Div) and self.opts.get("opaque_truediv") and a.tag == "any":
+            # `/` on an opaque object (pathlib joining): an uninterpreted, deterministic function of both operands; may raise
+            self.may_raise(st, z3.Function("raises.truediv", Any, Any, BoolS)(a.any(), b.any()), Exc("TypeError", origin="/"), node)
+            return Val("any", z3.Function("op.truediv", Any, Any, Any)(a.any(), b.any()))
         if isinstance(op, ast.Sub):
             if a.tag == "st" or b.tag == "st":
                 x, y = self.need(a, "st", st, node), self.need(b, "st", st, node)
